@@ -553,7 +553,7 @@ theorem sorted_choices_facts {a : AminoAcid} (ha : a ∈ t.aminoAcids) :
     (∀ c ∈ sorter (choices a), 0 < c.weight) ∧ (sorter (choices a)).Nodup := by
   refine ⟨?_, ((hperm _).nodup_iff).2 (choices_nodup hwf.1 ha)⟩
   intro ch hch
-  obtain ⟨c, _, rfl, _, hpos⟩ := mem_choices (hwf.2 a ha) ((hperm _).mem_iff.1 hch)
+  obtain ⟨c, _, rfl, _, hpos⟩ := mem_choices (hwf.2.1 a ha) ((hperm _).mem_iff.1 hch)
   exact hpos
 
 /-- every codon list that passes the membership test is produced by some in-range draws -/
@@ -648,5 +648,32 @@ theorem flatten_length3 : ∀ (cs : List Str), (∀ c ∈ cs, c.length = 3) → 
     have := flatten_length3 cs (fun x hx => h x (List.mem_cons_of_mem _ hx))
     simp only [List.flatten_cons, List.length_append, List.length_cons]
     omega
+
+end PolyVerif.CodonOptimize
+
+namespace PolyVerif.CodonOptimize
+open PolyVerif PolyVerif.Codon
+
+/-! ### the stable sort is an admissible sorter -/
+
+theorem insertByWeight_perm (c : Choice) : ∀ l : List Choice, (insertByWeight c l).Perm (c :: l)
+  | [] => List.Perm.refl _
+  | d :: ds => by
+    simp only [insertByWeight]
+    split
+    · exact List.Perm.refl _
+    · exact ((insertByWeight_perm c ds).cons d).trans (List.Perm.swap c d ds)
+
+theorem foldl_insert_perm : ∀ (cs acc : List Choice),
+    (cs.foldl (fun acc c => insertByWeight c acc) acc).Perm (cs.reverse ++ acc)
+  | [], acc => by simp
+  | c :: cs, acc => by
+    simp only [List.foldl_cons, List.reverse_cons, List.append_assoc, List.singleton_append]
+    exact (foldl_insert_perm cs (insertByWeight c acc)).trans ((insertByWeight_perm c acc).append_left _)
+
+theorem stableSort_perm (cs : List Choice) : (stableSort cs).Perm cs := by
+  have := foldl_insert_perm cs []
+  simp only [List.append_nil] at this
+  exact this.trans (List.reverse_perm cs)
 
 end PolyVerif.CodonOptimize
